@@ -6,6 +6,10 @@
   * `c03_success_is_xend_hairer`, `rk4Loop_success_exact`, `rk23Loop_success_exact`, `RadauCtl.run_success_exact` : the same for every
     instance of `Num` — no arithmetic is used since the landing step sets the time to `xend` itself (fix eaf3db1), so the
     statement covers the `Float` instance that runs beside the Rust code (RK23: `x = xend` or `x == xend`).
+  * `SolOutM.runMode2_forward` (Proofs/SolOutMono.lean): at the output handler (solver-selected output), for every strictly
+    increasing chain of accepted steps, every non-zero `first_step` and every interpolant, the recorded sample times are
+    strictly increasing, start at `x0` and do not pass the end of the last step (forward; the backward case is the mirror
+    image and is monitored).  The non-monotone samples repaired in 3991143 were a failure of exactly this invariant.
   * `hSolve_protocol` (C19) : the accepted points form a chain from `x0`.
   * `rowsum_*` (C02): stage times are `x + c_j h` with `0 ≤ c_j ≤ 1`, hence inside the step.
   RK23/RK4 landing, Radau/BDF, and the handler's sample bookkeeping are covered by co-simulation and the interval
@@ -24,6 +28,7 @@ import IvpModel.Proofs.RadauLemmas
 import IvpModel.Proofs.CtlField
 import IvpModel.Proofs.CtlRkField
 import IvpModel.Props.C02
+import IvpModel.Proofs.SolOutMono
 
 /-! ### `Success` lands on `xend` itself — in every arithmetic
 
